@@ -70,6 +70,12 @@ func validateRequestTupleInModel(m *modelgraph.AuthorizationModelGraph, t *openf
 }
 
 func validateCtxTupleInModel(m *modelgraph.AuthorizationModelGraph, t *openfgav1.TupleKey) error {
+	// contextual tuples mimic written tuples: they must be well-formed before they are matched against the model
+	if !tuple.IsValidObject(t.GetObject()) || tuple.IsTypedWildcard(t.GetObject()) ||
+		!tuple.IsValidRelation(t.GetRelation()) || !tuple.IsValidUser(t.GetUser()) {
+		return &tuple.InvalidTupleError{Cause: ErrValidation, TupleKey: t}
+	}
+
 	objectType := tuple.GetType(t.GetObject())
 	node, ok := m.GetNodeByID(tuple.ToObjectRelationString(objectType, t.GetRelation()))
 	// if the object#relation node does not exist the relation is not defined in the model
